@@ -99,13 +99,14 @@ CHECKS = {
     "C17": {
         "groups": [
             {"pkg": "Havoc/pkg/profile/yaotl/json", "entries": ["H_c17_json_scan"], "shards": 4, "flags": ["-init", "Havoc/pkg/profile/yaotl"]},
+            {"pkg": "Havoc/pkg/profile/yaotl/json", "entries": ["H_c17_json_parse"], "shards": 8, "flags": ["-tags", "jsonparse", "-init", "Havoc/pkg/profile/yaotl,golang.org/x/text/unicode/norm,github.com/zclconf/go-cty/...,math/big,github.com/agext/levenshtein"], "no_native_witness": True, "no_native_replay": True},
             {"pkg": "Havoc/pkg/profile/yaotl/hclsyntax", "entries": ["H_c17_strlit_any"], "shards": 5},
             {"pkg": "Havoc/pkg/profile/yaotl/hclsyntax", "entries": ["H_c17_lex"], "shards": 12, "flags": ["-init", "Havoc/pkg/profile/yaotl"]},
             {"pkg": "Havoc/pkg/profile/yaotl/hclsyntax", "entries": ["H_c17_mutate"], "shards": 8, "shards_thorough": 24, "allow_abandon": ["symbolic int -> float conversion"], "flags": ["-tags", "nohint", "-init", "Havoc/pkg/profile/yaotl,golang.org/x/text/unicode/norm,github.com/zclconf/go-cty/...,math/big,github.com/agext/levenshtein"]},
             {"pkg": "Havoc/pkg/profile/yaotl/hclsyntax", "entries": ["H_c17_parse"], "shards": 16, "flags": ["-init", "Havoc/pkg/profile/yaotl,golang.org/x/text/unicode/norm,github.com/zclconf/go-cty/...,math/big,github.com/agext/levenshtein"]},
         ],
-        "bounds": "JSON scanner: every byte string of length 0..3; string-literal sub-lexer (scanStringLit, quoted and unquoted): every byte string of length 0..4; native-syntax scanner (the Ragel machine of scan_tokens.go, modes normal/template/ident-only): every byte string of length 0..2 (thorough: 0..3): token order, coverage, bytes, end-of-file token, positions; the four parser entry points ParseConfig/ParseExpression/ParseTemplate/ParseTraversalAbs: every byte string of length 0..2 (thorough: 0..3): no panic, termination, node and diagnostic ranges inside the input, children inside parents, error-free inputs evaluate (nil context) without panicking; single-fault mutations: every byte value at every position of 2 (thorough: 6) well-formed sources of 40..60 bytes covering blocks, labels, nested blocks, lists, objects, templates with interpolation/if/for directives, heredocs (LF and CRLF), for-expressions, function calls with expansion, conditionals, splats, indexing, operators - scanner and ParseConfig with the same obligations; grapheme segmentation by contract.",
-        "outside": "inputs longer than the bounds other than single-byte mutations of the listed sources; the JSON parser above its scanner; gohcl decoding of error-free input (reflection); did-you-mean hints in diagnostic text (stubbed: edit distance over symbolic names forks per character pair); grapheme cluster segmentation (contract stub: some prefix of 1..n bytes); number literals whose digits are symbolic reach math/big float formatting (paths abandoned and counted)",
+        "bounds": "JSON scanner: every byte string of length 0..3; JSON parser (json.Parse): every byte string of length 0..2 (thorough 0..3) and every single-byte mutation of a 52-byte document with strings, numbers, keywords, arrays and nested objects - returns with a body and/or diagnostics, ranges inside the input, error-free documents read as attributes and evaluate; string-literal sub-lexer (scanStringLit, quoted and unquoted): every byte string of length 0..4; native-syntax scanner (the Ragel machine of scan_tokens.go, modes normal/template/ident-only): every byte string of length 0..2 (thorough: 0..3): token order, coverage, bytes, end-of-file token, positions; the four parser entry points ParseConfig/ParseExpression/ParseTemplate/ParseTraversalAbs: every byte string of length 0..2 (thorough: 0..3): no panic, termination, node and diagnostic ranges inside the input, children inside parents, error-free inputs evaluate (nil context) without panicking; single-fault mutations: every byte value at every position of 2 (thorough: 6) well-formed sources of 40..60 bytes covering blocks, labels, nested blocks, lists, objects, templates with interpolation/if/for directives, heredocs (LF and CRLF), for-expressions, function calls with expansion, conditionals, splats, indexing, operators - scanner and ParseConfig with the same obligations; grapheme segmentation by contract.",
+        "outside": "inputs longer than the bounds other than single-byte mutations of the listed sources; gohcl decoding of error-free input (reflection); encoding/json.Unmarshal inside the JSON parser is over-approximated (may reject any token; string escapes not decoded); did-you-mean hints in diagnostic text (stubbed: edit distance over symbolic names forks per character pair); grapheme cluster segmentation (contract stub: some prefix of 1..n bytes); number literals whose digits are symbolic reach math/big float formatting (paths abandoned and counted)",
         "min_completed": 3,
     },
     "C18": {
@@ -225,8 +226,8 @@ LEVELS = {
             "note": "UTF-16 encoder and regexp are stubs stated in the harness; no native replay (the stubs stand for x/text and regexp)."},
     "C10": {"text": "Bounded symbolic execution of the real pkg/db code (AgentAdd/AgentUpdate/AgentAll, LinkAdd/LinkRemove/LinksOf/ParentOf/LinkExist, ListenerAdd/Remove/All/Exist/Count, and init()'s CREATE TABLE statements) over operation sequences and symbolic ids/text, with database/sql replaced by a relational model that executes the SQL text the code really sends under SQLite's affinity and UNIQUE rules; a restart is a new handle on the same tables; counterexamples and witnesses are replayed on real SQLite.",
             "note": "Kill points inside a statement and journalling are outside (statements are atomic in the model); base64 is an injective model that distinguishes alphabets; listener configuration encoding (structs.Map/json) is outside."},
-    "C17": {"text": "Bounded symbolic execution of the real scanners and parsers: the JSON scanner, the string-literal sub-lexer, the Ragel-generated native-syntax scanner and the four hclsyntax entry points over every byte string up to the bound, plus every single-byte mutation of a set of well-formed sources; totality (no panic, loop bound), token losslessness, range containment and evaluation of error-free inputs are assertions decided by the solver for every input in the bound.",
-            "note": "Grapheme segmentation is a contract stub; did-you-mean hints are stubbed; the JSON parser above its scanner and gohcl decoding are outside."},
+    "C17": {"text": "Bounded symbolic execution of the real scanners and parsers: the JSON scanner, the string-literal sub-lexer, the Ragel-generated native-syntax scanner, the four hclsyntax entry points and the JSON syntax parser over every byte string up to the bound, plus every single-byte mutation of a set of well-formed sources; totality (no panic, loop bound), token losslessness, range containment and evaluation of error-free inputs are assertions decided by the solver for every input in the bound.",
+            "note": "Grapheme segmentation is a contract stub; did-you-mean hints are stubbed; encoding/json inside the JSON parser is over-approximated; gohcl decoding is outside."},
     "C14": {"text": "Partial: how a string's spelling maps to the loaded value is decided by symbolic execution of the real scanner, parser and template evaluation end to end (ParseConfig -> attribute value / block label) and of the scanStringLit + ParseStringLiteralToken kernel, for every value/spelling in the bound.",
             "note": "Schema-level decoding (gohcl/cty/reflect: required/unknown attributes, repeated blocks, wrong kinds, numbers as strings) is not encodable and not claimed."},
     "C11": {"text": "Bounded symbolic execution of the real event log / replay / fan-out / SendEvent code with the websocket write as a fault-injecting recorder; the fault sequence is a symbolic variable, and a mutex left held after any send is reported by the engine's lock model.",
